@@ -113,3 +113,10 @@ var _ *tls.Config // used by //@ func headers
 
 var _ io.Writer
 var _ *imapwire.Encoder
+
+// Direct users of Encoder.Quoted must pass a string that may be quoted.
+//
+//@ func writeSearchKey(enc *imapwire.Encoder, criteria *imap.SearchCriteria)
+//@   props C18:callsite
+//@   requires enc != nil && criteria != nil
+//@   callsite Encoder.Quoted(e *imapwire.Encoder, q string) requires imapwire.ValidQuotedSpec(e.QuotedUTF8, q)
